@@ -257,7 +257,7 @@ def _norm_dpfs_log2(d):
     return d
 
 
-def _build_partition(index, data, rng, block_log2, dpfs_block_log2, external_lv4, random_bitmaps, slack):
+def _build_partition(index, data, rng, block_log2, dpfs_block_log2, external_lv4, random_bitmaps, slack, lv3_tail=0):
     data = bytes(data)
     if not data:
         raise ValueError('level-4 payload must not be empty')
@@ -302,6 +302,9 @@ def _build_partition(index, data, rng, block_log2, dpfs_block_log2, external_lv4
         pos = a2 + nblocks[k] * bs[k]
     total = pos
     size_d3 = _align(total, db3) + gap(db3)
+    if lv3_tail:
+        # a level-3 size that is not a multiple of its block size: the last block is partial, the second copy starts at `size`
+        size_d3 += int(lv3_tail) % db3
     if size_d3 > total:
         view_slack.append((total, size_d3 - total))
 
@@ -314,7 +317,7 @@ def _build_partition(index, data, rng, block_log2, dpfs_block_log2, external_lv4
     view = bytes(view)
 
     # ---- DPFS level 3 (data), level 2 and level 1 (bitmaps) ---------------------------------------
-    n_d3 = size_d3 // db3
+    n_d3 = (size_d3 + db3 - 1) // db3
     bits3 = [rng.getrandbits(1) if random_bitmaps else 0 for _ in range(n_d3)]  # stored in lv2, select lv3
     chunks3 = (bytearray(size_d3), bytearray(size_d3))
     for j in range(n_d3):
@@ -442,7 +445,7 @@ def _build_partition(index, data, rng, block_log2, dpfs_block_log2, external_lv4
 
     inactive = [(off_d1 + (1 - selector) * size_d1, size_d1)]
     inactive += [(off_d2 + (1 - bits2[j]) * size_d2 + j * db2, db2) for j in range(n_d2)]
-    inactive += [(off_d3 + (1 - bits3[j]) * size_d3 + j * db3, db3) for j in range(n_d3)]
+    inactive += [(off_d3 + (1 - bits3[j]) * size_d3 + j * db3, min(db3, size_d3 - j * db3)) for j in range(n_d3)]
     vslack = []
     for vo, vl in view_slack:
         vslack += map_view(vo, vl)
@@ -518,7 +521,7 @@ def _is_flag(v):
 
 
 def _build_container(kind, payloads, rng, block_log2, dpfs_block_log2, external_lv4, active_table,
-                     random_bitmaps, unique_id, slack):
+                     random_bitmaps, unique_id, slack, lv3_tail=0):
     if active_table not in (0, 1):
         raise ValueError('active_table must be 0 or 1')
     count = len(payloads)
@@ -531,7 +534,8 @@ def _build_container(kind, payloads, rng, block_log2, dpfs_block_log2, external_
 
     parts = []
     for i in range(count):
-        parts.append(_build_partition(i, payloads[i], rng, g_block[i], g_dpfs[i], g_ext[i], g_rnd[i], slack))
+        tails = lv3_tail if isinstance(lv3_tail, (list, tuple)) else [lv3_tail] * count
+        parts.append(_build_partition(i, payloads[i], rng, g_block[i], g_dpfs[i], g_ext[i], g_rnd[i], slack, tails[i]))
 
     # table = descriptors back to back
     table = b''
@@ -643,17 +647,17 @@ def _build_container(kind, payloads, rng, block_log2, dpfs_block_log2, external_
 
 
 def build_diff(data, *, rng, block_log2=(9, 9, 9, 9), dpfs_block_log2=(7, 7), external_lv4=False,
-               active_table=0, random_bitmaps=True, unique_id=0, slack=True):
+               active_table=0, random_bitmaps=True, unique_id=0, slack=True, lv3_tail=0):
     """Build a DIFF image whose single partition carries `data` as IVFC level 4; see module docstring."""
     return _build_container('DIFF', [data], rng, block_log2, dpfs_block_log2, external_lv4, active_table,
-                            random_bitmaps, unique_id, slack)
+                            random_bitmaps, unique_id, slack, lv3_tail)
 
 
 def build_disa(partitions, *, rng, block_log2=(9, 9, 9, 9), dpfs_block_log2=(7, 7), external_lv4=False,
-               active_table=0, random_bitmaps=True, slack=True):
+               active_table=0, random_bitmaps=True, slack=True, lv3_tail=0):
     """Build a DISA image with 1 or 2 partitions; geometry options may be given per partition (lists)."""
     return _build_container('DISA', list(partitions), rng, block_log2, dpfs_block_log2, external_lv4,
-                            active_table, random_bitmaps, 0, slack)
+                            active_table, random_bitmaps, 0, slack, lv3_tail)
 
 
 def retarget(image, info, field, value, *, fix_header_hash=True):
